@@ -39,7 +39,7 @@ class CEval(object):
 
     def c_Name(self, n):
         if n.id == 'result':
-            if self.result is not None:
+            if self.result is not None and 'result' not in self.locals:
                 return self.result
             if 'result' not in self.locals:
                 raise OutOfSubset('`result` used where no result exists (line %d)' % n.lineno)
@@ -327,6 +327,11 @@ class CEval(object):
 
     def i_contents(self, n):
         return self.seq_of(self.ev(n.args[0]))
+
+    def i_result_value(self, n):
+        if self.result is None:
+            raise OutOfSubset('result_value() where no result exists')
+        return self.result
 
     def i_old_contents(self, n):
         # content, at function entry, of the list that the argument denotes *now*
